@@ -709,7 +709,8 @@ fn replay(args: &[String]) -> i32 {
             match type_bytes(kbi, l, &bytes) {
                 Ok((handed, empty)) => {
                     println!("handed {:?} empty {}", handed, empty);
-                    let bad = handed.iter().any(|(_, v)| *v == 0x8000 || !composable(*v));
+                    // Pinyin may hand the EMPTY syllable (C14_pinyin_commit_nonempty_refuted); the editor's dictionary guard drops it
+                    let bad = handed.iter().any(|(_, v)| if *v == 0x8000 { l < N_SYL_LAYOUTS } else { !composable(*v) });
                     if bad { 1 } else { 0 }
                 }
                 Err(p) => {
